@@ -26,12 +26,13 @@ struct EC {
     bool hasText = true;
     size_t infoLen = 0;      // 0 = automatic
     int wrapAt = -1;         // heap cfg: >= 0 places the text so that it wraps after that many bytes
+    int follow = 0;          // 1: another error with a short text is queued behind the one under test before it is queried
 };
 static std::string describe(const EC &c) {
-    return fmt("code=%d hasText=%d infoLen=%zu wrapAt=%d textLen=%zu text=", c.code, (int) c.hasText, c.infoLen, c.wrapAt, c.text.size()) + vis(c.text.size() > 300 ? c.text.substr(0, 300) + "..." : c.text);
+    return fmt("code=%d hasText=%d infoLen=%zu wrapAt=%d follow=%d textLen=%zu text=", c.code, (int) c.hasText, c.infoLen, c.wrapAt, c.follow, c.text.size()) + vis(c.text.size() > 300 ? c.text.substr(0, 300) + "..." : c.text);
 }
 static std::string replayOf(const EC &c) {
-    return fmt("code=%d\nhastext=%d\ninfolen=%zu\nwrapat=%d\ntext=%s\n", c.code, (int) c.hasText, c.infoLen, c.wrapAt, hexEnc(c.text).c_str());
+    return fmt("code=%d\nhastext=%d\ninfolen=%zu\nwrapat=%d\nfollow=%d\ntext=%s\n", c.code, (int) c.hasText, c.infoLen, c.wrapAt, c.follow, hexEnc(c.text).c_str());
 }
 
 static std::string escapeTo255(const std::string &D, size_t *usedChars) {
@@ -83,12 +84,26 @@ static std::string checkOne(const EC &c, bool *nt = nullptr) {
         if (I.out != "-102,\"Syntax error;C\"\r\n") return "second set-up query printed '" + vis(I.out) + "': " + describe(c);
         I.out.clear();
     }
-    int before = SCPI_ErrorCount(&I.ctx);
+    // a later error behind the one under test: its text lies right behind it in whatever store the build uses
+    if (c.follow) SCPI_ErrorPushEx(&I.ctx, -104, (char *) "Zz", 0);
+    int before = SCPI_ErrorCount(&I.ctx) - c.follow;
     I.errors.clear();
     bool r = I.input("SYST:ERR?\n");
     if (!I.invariant.empty()) return I.invariant + ": " + describe(c);
-    int after = SCPI_ErrorCount(&I.ctx);
+    int after = SCPI_ErrorCount(&I.ctx) - c.follow;
     std::string out = I.out;
+    if (c.follow) {
+        I.out.clear();
+        I.input("SYST:ERR?\n");
+        std::string d104 = describeCode(-104), fo = I.out;
+        I.out = out;
+        bool okF = fo == "-104,\"" + d104 + ";Zz\"\r\n";
+#if VF_HEAPCFG || !USE_DEVICE_DEPENDENT_ERROR_INFORMATION
+        okF = okF || fo == "-104,\"" + d104 + "\"\r\n";       // no room left in the static heap (or no texts at all): the error without its text
+#endif
+        if (!okF) return "the error queued behind the one under test came back as '" + vis(fo) + "': " + describe(c);
+        if (SCPI_ErrorCount(&I.ctx) != 0) return "queue not empty after both queries: " + describe(c);
+    }
     std::string desc = describeCode(c.code);
     // acceptable full contents D
     std::vector<std::string> Ds;
@@ -102,7 +117,7 @@ static std::string checkOne(const EC &c, bool *nt = nullptr) {
     if (nt) *nt = Ds[0].size() > 200 || stored.find('"') != std::string::npos;
     if (!r) return "SCPI_Input returned FALSE for SYST:ERR?: " + describe(c);
     if (before != 1 || after != 0) return fmt("queue count %d -> %d, expected 1 -> 0: ", before, after) + describe(c);
-    if (I.flushes != (fillerA.empty() ? 1 : 3)) return "flush count wrong: " + describe(c);
+    if (I.flushes != (fillerA.empty() ? 1 : 3) + c.follow) return "flush count wrong: " + describe(c);
     // independent reader: <int>,"...."\r\n with every inner quote doubled
     std::string pre = fmt("%d,\"", c.code);
     if (out.compare(0, pre.size(), pre) != 0) return "response does not start with '" + pre + "': '" + vis(out) + "' " + describe(c);
@@ -185,8 +200,10 @@ static void runGrid(const Opt &o, Ev &ev) {
                 if (!run(c)) return;
                 if (L && (nearB || L % 39 == 0)) { c.infoLen = L; if (!run(c)) return; c.infoLen = L / 2 ? L / 2 : 1; if (!run(c)) return; c.infoLen = 0; }
 #if VF_HEAPCFG
-                if (L >= 2) for (int w : {1, (int) L / 2, (int) L - 1, (int) L}) { c.wrapAt = w; if (!run(c)) return; }
+                if (L >= 2) for (int w : {1, (int) L / 2, (int) L - 1, (int) L}) { c.wrapAt = w; if (!run(c)) return; if (nearB || L % 3 == 0) { c.follow = 1; if (!run(c)) return; c.follow = 0; } }
+                c.wrapAt = -1;
 #endif
+                if (nearB || L % 7 == 0) { c.follow = 1; if (!run(c)) return; c.follow = 0; }
             }
         }
     }
@@ -210,6 +227,7 @@ static EC decode(Src &s) {
     for (size_t i = 0; i < L; i++) { switch (s.weighted({12, 2, 1})) { case 0: c.text += (char) s.range(32, 126); break; case 1: c.text += '"'; break; default: c.text += (char) s.range(1, 127); } }
     if (!c.text.empty() && s.prob(1, 4)) c.infoLen = s.range(1, c.text.size());
     if (s.prob(1, 2)) c.wrapAt = (int) s.range(0, c.text.size());
+    if (s.prob(1, 3)) c.follow = 1;
     return c;
 }
 static std::string body(Src &s, Ev &ev) {
@@ -226,7 +244,7 @@ static std::string body(Src &s, Ev &ev) {
 int main(int argc, char **argv) {
     std::vector<Sub> subs;
     auto replayOne = [](const Replay &r) {
-        EC c; c.code = (int) r.num("code"); c.hasText = r.num("hastext", 1) != 0; c.infoLen = (size_t) r.num("infolen"); c.wrapAt = (int) r.num("wrapat", -1); c.text = hexDec(r.get("text"));
+        EC c; c.code = (int) r.num("code"); c.hasText = r.num("hastext", 1) != 0; c.infoLen = (size_t) r.num("infolen"); c.wrapAt = (int) r.num("wrapat", -1); c.follow = (int) r.num("follow", 0); c.text = hexDec(r.get("text"));
         return checkOne(c);
     };
     subs.push_back({"one", [](const Opt &, Ev &) {}, replayOne});
